@@ -17,6 +17,7 @@ from typing import Dict, List, Optional, Tuple
 
 from .frontend import AnalysisError, FuncInfo, Program, unparse
 from .values import (
+    rooted,
     PartialV,
     BoolV,
     BoundV,
@@ -159,6 +160,7 @@ class Interp:
         self.notes: List[str] = []
         self.trace_loads = set()  # attribute names whose loads are recorded as events
         self.yield_stack: list = []  # active `with <generator context manager>` statements
+        self.trace_iters = False  # record `for` loops over state-rooted containers
         self.trace_defaults: set = set()  # parameter names whose defaulting is recorded as an event
         self.inline_skip = set()  # function quals not to inline (treated as opaque)
         self.loop_depth = 0
@@ -1975,6 +1977,9 @@ class Interp:
             if kind != "val":
                 results.append((kind, s, itv))
                 continue
+            if self.trace_iters and isinstance(itv, V) and rooted(itv.args[0].key() if isinstance(itv, ExtObj) and itv.cls.startswith("dict_") and itv.args else itv.key()):
+                # iteration over long-lived state: recorded for the "no iteration over what another thread grows" rule
+                self.emit(s, "iter", "for", node, recv=itv)
             exact = None
             if isinstance(itv, TupleV) or (isinstance(itv, ListV) and itv.items is not None):
                 exact = list(itv.items)
